@@ -585,7 +585,7 @@ func (c *client) Receive(reader io.Reader) error {
 		return nil
 	}
 
-	body, err := c.rawCodec().DecodeBody(raw.Header, codecs.NewFrameBodyReader(raw.Body))
+	body, err := codecs.DecodeBody(c.rawCodec(), raw.Header, codecs.NewFrameBodyReader(raw.Body))
 	if err != nil {
 		c.proxy.logger.Error("unable to decode body", zap.Error(err))
 		return err
@@ -986,7 +986,7 @@ func (c *client) maybeStorePreparedMetadata(raw *frame.RawFrame, isSelect bool, 
 	logger := c.proxy.logger
 
 	if prepareMsg, ok := msg.(*message.Prepare); ok && raw.Header.OpCode == primitive.OpCodeResult { // Prepared result
-		frm, err := c.rawCodec().ConvertFromRawFrame(raw)
+		frm, err := codecs.ConvertFromRawFrame(c.rawCodec(), raw)
 		if err != nil {
 			logger.Error("error attempting to decode prepared result message")
 		} else if preparedResultMsg, ok := frm.Body.Message.(*message.PreparedResult); !ok { // TODO: Use prepared type data to disambiguate idempotency
